@@ -1124,6 +1124,14 @@ impl<'a> World<'a> {
                 }
             }
         }
+        // a peer's updater that leaves out optional fields (BIP174/371: key origins are optional)
+        if self.mon.corruption && self.dec.choose(&format!("strip-origins:{}", self.stats.attempts), 5) == 1 {
+            for inp in psbt.inputs.iter_mut() {
+                inp.bip32_derivation.clear();
+                inp.tap_key_origins.clear();
+            }
+            self.stats.probe("key_origins_stripped");
+        }
         let v = self.dec.choose(&format!("cfin:{}", self.stats.attempts), 6);
         let all_final = monitors::finalize_with_monitors(self, "coord", &mut psbt, v);
         // persist after finalisation steps (crash points fall between inputs via per-input variants)
